@@ -13,6 +13,7 @@ import (
 	"strings"
 	"sync"
 	"sync/atomic"
+	"time"
 
 	"github.com/tailscale/setec/audit"
 	setec "github.com/tailscale/setec/client/setec"
@@ -49,10 +50,15 @@ func traceConc(o opts) error {
 		os.MkdirAll(dir, 0700)
 		path := filepath.Join(dir, "setec.db")
 		alog := filepath.Join(dir, "audit.log")
-		aw, err := audit.NewFile(alog)
+		var clock atomic.Int64
+		// the audit file as audit.NewFile opens it, behind a sink that stamps every Write and Sync
+		// with the same global counter as the calls
+		af, err := os.OpenFile(alog, os.O_WRONLY|os.O_APPEND|os.O_CREATE, 0600)
 		if err != nil {
 			return err
 		}
+		ss := &stampSink{f: af, clock: &clock}
+		aw := audit.New(ss)
 		d, err := db.Open(path, kek, aw)
 		if err != nil {
 			return err
@@ -88,7 +94,6 @@ func traceConc(o opts) error {
 		if nseed == 0 {
 			seedState = "-"
 		}
-		var clock atomic.Int64
 		progs := make([][]dbOp, nthreads)
 		for t := range progs {
 			for k := 0; k < 3+r.Intn(4); k++ {
@@ -114,7 +119,9 @@ func traceConc(o opts) error {
 					inv := clock.Add(1)
 					var res string
 					if via == "db" {
-						res = execDirect(d, su, op)
+						c := su
+						c.Principal.Hostname = fmt.Sprintf("conc-t%d", t)
+						res = execDirect(d, c, op)
 					} else {
 						res = execClient(cl, op)
 					}
@@ -153,7 +160,32 @@ func traceConc(o opts) error {
 				}
 			}
 		}
-		emit("conc\tvia=%s\tseed=%s\tcalls=%s\tfinal=%s\taudit=%s/%d/%d", via, seedState, strings.Join(parts, ";"), final, wellFormed, lines, ncalls+nseed)
+		// a call's record must be synced - by a Sync that began after the record was written -
+		// before the call returns
+		unsynced := 0
+		if via == "db" {
+			ss.mu.Lock()
+			for _, w := range ss.writes {
+				if w.thread < 0 || w.thread >= nthreads {
+					continue
+				}
+				for _, c := range results[w.thread] {
+					if c.inv < w.ws && w.we < c.ret {
+						ok := false
+						for _, y := range ss.syncs {
+							if y.ss > w.we && y.se < c.ret {
+								ok = true
+							}
+						}
+						if !ok {
+							unsynced++
+						}
+					}
+				}
+			}
+			ss.mu.Unlock()
+		}
+		emit("conc\tvia=%s\tseed=%s\tcalls=%s\tfinal=%s\taudit=%s/%d/%d\tunsynced=%d", via, seedState, strings.Join(parts, ";"), final, wellFormed, lines, ncalls+nseed, unsynced)
 		os.RemoveAll(dir)
 	}
 	return nil
@@ -306,3 +338,52 @@ func execClient(cl setec.Client, op dbOp) string {
 	}
 	return "badop"
 }
+
+
+// stampSink is the audit file with every Write and Sync stamped on the calls' clock.
+type stampSink struct {
+	f      *os.File
+	clock  *atomic.Int64
+	mu     sync.Mutex
+	writes []stampWrite
+	syncs  []stampSync
+}
+
+type stampWrite struct {
+	thread int
+	ws, we int64
+}
+
+type stampSync struct{ ss, se int64 }
+
+func (s *stampSink) Write(p []byte) (int, error) {
+	ws := s.clock.Add(1)
+	n, err := s.f.Write(p)
+	we := s.clock.Add(1)
+	thread := -1
+	var e struct {
+		Principal struct {
+			Hostname string `json:"hostname"`
+		} `json:"principal"`
+	}
+	if json.Unmarshal(p, &e) == nil {
+		fmt.Sscanf(e.Principal.Hostname, "conc-t%d", &thread)
+	}
+	s.mu.Lock()
+	s.writes = append(s.writes, stampWrite{thread, ws, we})
+	s.mu.Unlock()
+	return n, err
+}
+
+func (s *stampSink) Sync() error {
+	ss := s.clock.Add(1)
+	err := s.f.Sync()
+	time.Sleep(100 * time.Microsecond) // a slow disk: widens the window in which another record can arrive
+	se := s.clock.Add(1)
+	s.mu.Lock()
+	s.syncs = append(s.syncs, stampSync{ss, se})
+	s.mu.Unlock()
+	return err
+}
+
+func (s *stampSink) Close() error { return s.f.Close() }
